@@ -12,6 +12,7 @@ pub enum TObst<R: Raw> {
     Box { lo: Vec<f64>, hi: Vec<f64> },
     Wall { axis: usize, lo: f64, hi: f64, gap: Option<(usize, f64, f64)> },
     CompBall { off: usize, kind: Comp, c: Vec<f64>, r: f64 },
+    Outside { lo: Vec<f64>, hi: Vec<f64> },
 }
 
 pub struct TypedWorld<R: Raw> {
@@ -40,6 +41,10 @@ impl<R: Raw> TypedWorld<R> {
                 Obstacle::Wall { axis, lo, hi, gap } => {
                     needs_coords = true;
                     TObst::Wall { axis: *axis, lo: *lo, hi: *hi, gap: *gap }
+                }
+                Obstacle::Outside { lo, hi } => {
+                    needs_coords = true;
+                    TObst::Outside { lo: lo.clone(), hi: hi.clone() }
                 }
                 Obstacle::CompBall { comp, c, r } => {
                     needs_coords = true;
@@ -73,6 +78,7 @@ impl<R: Raw> TypedWorld<R> {
                         && x < *hi
                         && !gap.is_some_and(|(ga, gl, gh)| coords[ga] > gl && coords[ga] < gh)
                 }
+                TObst::Outside { lo, hi } => lo.iter().zip(hi).enumerate().any(|(i, (l, h))| coords[i] < *l || coords[i] > *h),
                 TObst::CompBall { off, kind, c, r } => crate::spaces::comp_dist(kind, &coords[*off..*off + kind.width()], c) < *r,
             };
             if inside {
